@@ -394,6 +394,8 @@ impl Heap {
         if self.which == Which::C04 {
             f.push(("abort-points", cut_programs));
         }
+        // one machine, a fresh compiler for every program (the library allows it; eval, the binary and the prompt never do)
+        f.push(("one-machine-many-compilers", match (ctx.flavour, ctx.tier) { (Flavour::Miri, _) => 20, (Flavour::Rel, Tier::Quick) => 3_000, (Flavour::Rel, Tier::Thorough) => 200_000, (_, Tier::Quick) => 300, _ => 3_000 }));
         // millions of allocations in one loop, without a function return in between: what a collector does only "after a
         // while" (a threshold, a generation, a grown table) happens inside these runs
         f.push(("long-runs", match (ctx.flavour, ctx.tier) { (Flavour::Miri, _) => 0, (Flavour::Rel, Tier::Thorough) => (LONG_RUNS * 3) as u64, _ => LONG_RUNS as u64 }));
@@ -406,6 +408,7 @@ impl Heap {
         let mut r = Rng::for_case(ctx.seed, 300 + f as u64, i);
         match name {
             "directed" => (name, directed()[i as usize].1.to_string()),
+            "one-machine-many-compilers" => (name, machine_programs(&mut r).join("\n//---- next program, fresh compiler\n")),
             "long-runs" => (name, long_run((i as usize) % LONG_RUNS, [400_000, 2_000_000, 8_000_000][(i as usize) / LONG_RUNS]).0),
             "scale" => (name, crate::scale::heap_programs(ctx.flavour == Flavour::Rel && ctx.tier == Tier::Thorough)[i as usize].1.clone()),
             "valgrind" => {
@@ -526,6 +529,41 @@ impl Heap {
         verif::clear_ledger();
         (o.count, o.outcome)
     }
+}
+
+/// two to five allocating programs, each ending in an immediate value (nobody owns a result), for one machine
+fn machine_programs(r: &mut Rng) -> Vec<String> {
+    let k = 2 + r.below(4);
+    (0..k)
+        .map(|j| {
+            if r.chance(1, 4) {
+                // short and full of heap constants
+                let n = 1 + r.below(6);
+                let mut t = String::new();
+                for q in 0..n {
+                    t.push_str(&format!("stel v{} = [\"tekst {} {}\", {}.25, [\"diep\", {}.5]]; ", q, j, q, q + j, q));
+                }
+                format!("{}{}", t, ["0", "nee", "onbekend", "[1][5]", "1 / 0", "lengte(v0)"][r.below(6) as usize])
+            } else {
+                // (programs whose meaning the documentation fixes: a variable read inside its own initialiser would see
+                //  what an earlier program left in the machine's table of globals)
+                let mut out = "stel v = [1.5, \"x\"]; 0".to_string();
+                for _ in 0..6 {
+                    let profile = if r.chance(1, 4) { Profile::Calls } else { Profile::Heap };
+                    let tree = random_program(r, profile).0;
+                    if crate::refsem::static_check(&tree).unspecified.is_some() {
+                        continue;
+                    }
+                    if matches!(crate::refsem::run_program(&tree, 100_000).outcome, crate::refsem::RefOutcome::Unspecified(_) | crate::refsem::RefOutcome::OutOfSteps) {
+                        continue;
+                    }
+                    out = format!("{};\n0", to_text(&tree));
+                    break;
+                }
+                out
+            }
+        })
+        .collect()
 }
 
 const LONG_RUNS: usize = 7;
@@ -699,6 +737,57 @@ impl Check for Heap {
                     }
                     Err(e) => st.inconclusive(format!("valgrind could not be started: {}", e)),
                 }
+            }
+            "one-machine-many-compilers" => {
+                let programs = machine_programs(&mut r);
+                let text = programs.join("\n//---- next program, fresh compiler\n");
+                st.distinct_hash(hash_str(&text));
+                st.add("one-machine:programs", programs.len() as u64);
+                let shadow = match ctx.flavour {
+                    Flavour::Asan | Flavour::Miri => ShadowMode::Off,
+                    _ => ShadowMode::Quarantine,
+                };
+                verif::reset_all();
+                verif::set_capture(true);
+                verif::set_probes(shadow != ShadowMode::Off);
+                verif::set_stop_on_event(true);
+                verif::set_shadow(shadow);
+                let run = catch_unwind(AssertUnwindSafe(|| {
+                    let mut vm = nederlang::vm::VM::new();
+                    let mut outcomes = vec![];
+                    for p in &programs {
+                        verif::reset_run();
+                        verif::set_budget(Some(300_000));
+                        let mut compiler = nederlang::compiler::Compiler::new();
+                        let r = nederlang::parser::parse(p).and_then(|ast| compiler.compile_ast(&ast)).and_then(|code| vm.run(code));
+                        outcomes.push(match r {
+                            Ok(o) => format!("value:{}", o.tag() as u8),
+                            Err(_) => "error".to_string(),
+                        });
+                        drop(compiler);
+                    }
+                    drop(vm);
+                    outcomes
+                }));
+                st.evaluations += 1;
+                let events: Vec<String> = verif::take_events().iter().map(event_class).collect();
+                match run {
+                    Err(p) => {
+                        let what = if p.is::<nederlang::verif::VerifStop>() { format!("monitor-stop:{}", events.first().cloned().unwrap_or_default()) } else { let (l, _) = crate::obs::take_panic(); format!("panic@{}", crate::obs::short_loc(&l)) };
+                        st.violation(&format!("{}:{}", name, what), format!("events {:?}", events), &text);
+                    }
+                    Ok(outcomes) => {
+                        for o in &outcomes {
+                            st.count(&format!("one-machine:program-outcome:{}", o.split(':').next().unwrap_or("")));
+                        }
+                        if let Some(e) = events.iter().find(|e| *e == "use-after-free" || *e == "double-free") {
+                            st.violation(&format!("{}:{}", name, e), format!("events {:?}", events), &text);
+                        } else if self.which == Which::C04 && shadow != ShadowMode::Off && verif::live_count() != 0 {
+                            st.violation(&format!("{}:leak-after-the-machine-is-gone", name), format!("{} boxes still allocated after every program ended in an immediate value or an error, and machine and compilers were dropped (outcomes {:?})", verif::live_count(), outcomes), &text);
+                        }
+                    }
+                }
+                verif::clear_ledger();
             }
             "long-runs" => {
                 heapmon::install();
